@@ -132,6 +132,7 @@ type Run struct {
 	initLog   func(string)
 	seed      int
 	branchTimeoutMs int
+	stubs     map[string]*ssa.Function // environment stubs: real function name -> harness function executed instead
 }
 
 func (ex *Exec) noteFunc(fn *ssa.Function) {
